@@ -28,3 +28,20 @@ package workflow
 //@   requires wfnode(data)
 //@ func buildOptionalExpression
 //@   requires wfnode(data)
+//
+// ---- interfaces of package workflow (contracts of their methods) ----
+//
+//@ pure outputSchemaOf(w ExecutableWorkflow) map[string]*schema.StepOutputSchema
+//
+//@ func iface YAMLConverter.FromYAML(data)
+//@   ensures (result1 == nil) != (result == nil)
+//@ func iface Executor.Prepare(workflow, workflowContext)
+//@   ensures (result1 == nil) != (result == nil)
+//@ func iface ExecutableWorkflow.Execute(ctx, serializedInput)
+//@   ensures [error-has-no-output] result2 != nil ==> result == "" && result1 == nil
+//@   ensures [output-is-declared] result2 == nil ==> indom(outputSchemaOf(self), result)
+//@ func iface ExecutableWorkflow.OutputSchema()
+//@   ensures result == outputSchemaOf(self)
+//@   ensures forall k string :: indom(result, k) ==> result[k] != nil
+//@ func iface ExecutableWorkflow.Namespaces()
+//@ func iface ExecutableWorkflow.Input()
